@@ -189,7 +189,8 @@ theorem hasPrioList_mono (H : OHyp E rank Good) : ∀ (ks ks' : List Prog) (v : 
     have e1 : E.ops.lt (E.ops.combine acc' pk) (E.ops.combine acc pk) = false := H.mono_r _ _ _ ha' ha gk hle
     have e2 : E.ops.lt (E.ops.combine acc' pk') (E.ops.combine acc' pk) = false := H.mono_l _ _ _ gk' gk ha' hkk
     exact hasPrioList_mono H ks ks' as _ _ pr pr' (H.good_comb _ _ ha gk) (H.good_comb _ _ ha' gk')
-      (H.weak.ntrans _ _ _ e1 e2) (fun j x x' sj hx hx' hsj => hp (j + 1) x x' sj hx hx' hsj) h2 h2'
+      (H.weak.ntrans (H.good_comb _ _ ha gk) (H.good_comb _ _ ha' gk) (H.good_comb _ _ ha' gk') e1 e2)
+      (fun j x x' sj hx hx' hsj => hp (j + 1) x x' sj hx hx' hsj) h2 h2'
 
 theorem LE.all (H : OHyp E rank Good) {nt : UNT U} {F : Sym} {a b : List Prog} {v : List (UNT U)}
     (hka : KeyOK E nt F a v) (hkb : KeyOK E nt F b v)
@@ -202,7 +203,7 @@ theorem LE.all (H : OHyp E rank Good) {nt : UNT U} {F : Sym} {a b : List Prog} {
   obtain ⟨w, hm⟩ := hka.1
   obtain ⟨rfl, rfl⟩ := H.ualt nt F a v w v1 w1 hm hm1 hka.2 (hasPrioList_derList E _ _ _ _ hl1)
   obtain ⟨rfl, rfl⟩ := H.ualt nt F b v w v2 w2 hm hm2 hkb.2 (hasPrioList_derList E _ _ _ _ hl2)
-  exact hasPrioList_mono H a b v _ _ px py (H.good_rule nt F v w hm) (H.good_rule nt F v w hm) (H.weak.irrefl _) hp hl1 hl2
+  exact hasPrioList_mono H a b v _ _ px py (H.good_rule nt F v w hm) (H.good_rule nt F v w hm) (H.weak.irrefl (H.good_rule nt F v w hm)) hp hl1 hl2
 
 /-! ### every unpopped derivable program is dominated by a heap element -/
 
@@ -536,7 +537,11 @@ theorem take_prefix_complete (R : RHyp E rank Good) (fuel k : Nat) (s' : St U π
     have h2 : E.ops.lt kp f.1 = false := by
       rw [hkpe, hfk]
       exact R.adj_mono prp prf nt w hw (hasPrio_good H _ _ _ hprp) (hasPrio_good H _ _ _ hprf) (hlefp prf prp hprf hprp)
-    have := H.weak.ntrans _ _ _ h1 h2
+    have hgq : Good xq.1 := by
+      obtain ⟨w2, pr2, hw2, hpr2, he2⟩ := hog.em_key xq hxq
+      rw [he2]; exact R.good_adjust _ _ _ hw2 (hasPrio_good H _ _ _ hpr2)
+    have hgp : Good kp := by rw [hkpe]; exact R.good_adjust _ _ _ hw (hasPrio_good H _ _ _ hprp)
+    have := H.weak.ntrans hgq (start_good R hog.base.sinv f hf) hgp h1 h2
     rw [← hkq', hlt] at this
     cases this
   · -- the start symbol is exhausted: everything derivable from it was popped and handed over
